@@ -334,8 +334,10 @@ fn bases(thorough: bool) -> Vec<Base> {
 	let m2: Tx = vec![(1, Op::Set(k(2), v(2))), (0, Op::Del(k(1))), (1, Op::Del(k(1)))];
 	let m3: Tx = vec![(1, Op::Set(k(1), v(0))), (0, Op::Set(k(2), v(1)))];
 	out.push(build_base("hash+btree/3-files-none-enacted", kv.clone(), vec![c(m1.clone()), p.clone(), f.clone(), c(m2.clone()), p.clone(), f.clone(), c(m3.clone()), p.clone(), f.clone()], None));
-	if thorough {
+	{
 		out.push(build_base("hash+btree/2-of-3-enacted", kv, vec![c(m1), p.clone(), f.clone(), c(m2), p.clone(), f.clone(), e.clone(), e.clone(), e.clone(), c(m3), p.clone(), f.clone()], None));
+	}
+	if thorough {
 		let bt = Config::new(vec![ColSpec::btree()]);
 		out.push(build_base("btree/3-files-1-enacted", bt, vec![c(t1), p.clone(), f.clone(), c(t2), p.clone(), f.clone(), e.clone(), c(t3), p.clone(), f.clone()], None));
 	}
@@ -385,6 +387,21 @@ pub fn run(tier: &str) -> ! {
 					let is_first = b.records.values().all(|r| first_of(r) >= first_of(&b.records[f]));
 					if is_first && b.records[f].iter().any(|(c, _, _)| *c > b.enacted) {
 						what.push_str(" [the record id at the head of the log file replayed first, which holds a record not yet applied, is damaged]");
+					}
+				}
+				// damage to a log file whose records are all in the tables already, while the tables also hold a later record
+				let touched: Vec<&String> = match m {
+					Mutation::Truncate(f, _) | Mutation::Flip(f, _, _) | Mutation::Window(f, _, _) | Mutation::AppendGarbage(f, _) | Mutation::AppendOwnFirstRecord(f) | Mutation::AppendRecordOf(f, _) => vec![f],
+					Mutation::SwapNames(a, c) => vec![a, c],
+					_ => vec![],
+				};
+				for f in touched {
+					if let Some(recs) = b.records.get(f) {
+						let last = recs.iter().map(|x| x.0).max().unwrap_or(0);
+						if !recs.is_empty() && last <= b.enacted && b.records.values().flatten().any(|x| x.0 > last && x.0 <= b.enacted) {
+							what.push_str(" [a log file all of whose records are already in the tables is damaged while the tables also hold a later record]");
+							break
+						}
 					}
 				}
 				if let Some(f) = vanishes {
